@@ -62,6 +62,15 @@ func NewYAMLAccountManager(accountDir string) (*YAMLAccountManager, error) {
 			return nil, fmt.Errorf("unmarshal: %v", err)
 		}
 
+		// Every write addresses an account's file by its login.  A rename interrupted by a crash (file already
+		// moved, contents not yet rewritten) leaves a file whose name no longer matches the login inside; move it
+		// back, so that the next update or delete of the account acts on this file instead of creating a second one.
+		if want := filepath.Join(accountDir, path.Join("/", account.Login)+".yaml"); want != filePath {
+			if _, err := os.Stat(want); os.IsNotExist(err) {
+				_ = os.Rename(filePath, want)
+			}
+		}
+
 		// Check the account file contents for a field name that only appears in the new AccessBitmap flag format.
 		// If not present, re-save the file to migrate it from the old array of ints format to new bool flag format.
 		if !strings.Contains(string(fileContents), "    DownloadFile:") {
